@@ -867,10 +867,24 @@ func (s *session) onDisconnect() {
 		s.messageOut = nil
 	}
 
-	// s.messageIn is buffered so we need to drain it before disconnection
-	s.drainMessageIn()
+	// s.messageIn is buffered so we need to empty it before disconnection. The application has been told about the
+	// logout by now: what the reader still hands over is not processed (the peer resends it after the next logon).
+	s.discardMessageIn()
 
 	s.messageIn = nil
+}
+
+func (s *session) discardMessageIn() {
+	for {
+		select {
+		case _, ok := <-s.messageIn:
+			if !ok {
+				return
+			}
+		default:
+			return
+		}
+	}
 }
 
 func (s *session) onAdmin(msg interface{}) {
